@@ -3,6 +3,7 @@
 # Applies a behaviour-preserving change in the scratch worktree (never in /repo), runs the quick checks against it
 # through DSW_REPO, and prints every check that raises an alarm. (Evidence files written by these runs describe the
 # scratch tree: re-run the checks on /repo before committing evidence.)
+V="$(cd "$(dirname "$0")/.." && pwd)"
 wt="$1"; d="$2"; shift 2
 ids="$*"; [ -z "$ids" ] && ids="C01 C02 C03 C04 C05 C06 C07 C08 C09 C10 C11 C12 C13 C14 C15 C16 C17 C18 C19 C20"
 cd "$wt" || exit 2
@@ -10,7 +11,7 @@ git checkout -q -- . || exit 2
 git apply "$d/patch.diff" || { echo "patch does not apply"; exit 2; }
 trap 'git -C '"$wt"' checkout -q -- .' EXIT
 log=$(mktemp -d)
-echo $ids | tr ' ' '\n' | xargs -P 4 -I{} sh -c "cd /verif && DSW_REPO=$wt VERIF_SEED=\${VERIF_SEED:-0} ./check {} --tier quick > $log/{}.out 2>&1; echo \$? > $log/{}.rc"
+echo $ids | tr ' ' '\n' | xargs -P 4 -I{} sh -c "cd $V && DSW_REPO=$wt VERIF_SEED=\${VERIF_SEED:-0} ./check {} --tier quick > $log/{}.out 2>&1; echo \$? > $log/{}.rc"
 bad=0
 for id in $ids; do
   rc=$(cat $log/$id.rc)
